@@ -190,7 +190,7 @@ func main() {
 		filter = regexp.MustCompile(*harnessRe)
 	}
 
-	rep := &report{Partial: *harnessRe != "" || *noReplay, Prop: cfg.ID, Tier: *tier, Seed: seed, Cfg: cfg, LoadS: loadS, Solver: eng.SolverName, TimeoutMs: timeout}
+	rep := &report{Partial: *harnessRe != "" || *noReplay || repoDir != "/repo", Prop: cfg.ID, Tier: *tier, Seed: seed, Cfg: cfg, LoadS: loadS, Solver: eng.SolverName, TimeoutMs: timeout}
 	lemmaFailed := map[string]bool{}
 	for _, st := range cfg.Stages {
 		if st.ThoroughOnly && !thorough {
